@@ -23,30 +23,31 @@ ONE pool, upstream stop of fix 091db8d).  Proved here (all schedules, all sizes)
 * witnesses (`Witness/C13.lean`): with `max_workers ≤ #inputs` a reachable configuration without any enabled step exists
   in which nothing is finished (finding F-C13-pool-small).
 
-Round 8 (package C13D2; `Lemmas/Piter2Queue/Inv/Live/Dead/Final.lean`), for a GENERATOR `iterator_fn` (`fwd = false`):
+Round 8 (package C13D2; `Lemmas/Piter2Queue/Inv/Live/Dead/Final.lean`), for BOTH kinds of `iterator_fn` (generator,
+pass-through `fwd`):
 
 * `C13_two_no_lost_wakeup` — the no-lost-wake-up invariant J1 ∧ J2 ∧ K1 ∧ K2 of BOTH queues in every reachable
-  configuration (per-queue views `q1cfg` / `q2cfg`, transferred from the queue LTS);
+  configuration (per-queue views `q1cfg` / `q2cfg`, transferred from the queue LTS).  The view of the output queue
+  shows a second-level task that has seen the END of the input queue with the `_stop_enqueue` arguments `[0]`: a
+  pass-through `iterator_fn` forwards the arguments of the input queue's `StopIteration`, which are EMPTY after an
+  upstream stop, while `Queue.Live` recognises a producer that ran `_stop_enqueue` by its non-empty arguments; the
+  arguments only flow into `returned`, which `Live` does not read (`Queue.stepThread_rets`, `live_returned`);
 * `C13_two_input_lock` — `lock1` is held exactly by the second-level task inside `next(DequeueIterator(Q1))`;
 * `C13_two_upstream_done` — a second-level task ends only after enqueueing on the INPUT queue is done (it saw the end
-  of the input queue, or it / the failing task stopped the input queue: fix 091db8d);
+  of the input queue, or it / the caller stopped the input queue: fix 091db8d);
 * `C13_two_stuck_all_parked` — in a quiescent configuration (ANY pool) all six queue locks are free and every thread
   is finished, an unstarted task the pool holds back, waiting for `lock1`, or parked on a condition variable;
-* `C13_two_no_deadlock_partial` — **deadlock freedom under `PoolOK`**: a reachable configuration without enabled step is
+* `C13_two_no_deadlock` — **deadlock freedom under `PoolOK`**: a reachable configuration without enabled step is
   final (every schedule, capacity, batch size, `num_steps`, failing inputs / `iterator_fn`, FIFO or any-order pool);
 * `C13_two_stuck_no_unstarted` — under `PoolOK` no task is left unstarted in a quiescent configuration.
 
 NOT proved (full statements, kept visible):
-* `theorem C13_two_no_deadlock : PoolOK … c0 → Reachable F c0 c → c.quiescent F → c.allDone` for BOTH kinds of
-  `iterator_fn`.  Missing: the pass-through case `fwd = true`.  There a second-level task forwards the arguments of the
-  input queue's `StopIteration`; after an upstream stop these can be EMPTY, and the ghost classification
-  `Queue.stopped` (`_stop_enqueue`'s arguments are non-empty ∨ an exception is re-raised), on which the producer
-  counting `CNT` of `Queue.Live` rests, then misclassifies a task that did run `_stop_enqueue` — `Queue.Live (q2cfg c)`
-  itself is false in such configurations, so the transfer needs a view that normalises `rets` (or a ghost flag in
-  `Queue.Thread`).  The check covers `fwd = true` by exhaustive exploration + schedule replay + oracle.
-* conservation across both levels (multiset of delivered outputs = sequential evaluation; every input generator's
-  return value reaches the final `StopIteration`, P times for a pass-through `iterator_fn`) and termination (a variant):
-  not attempted here; exploration + replay + oracle only.
+* conservation across both levels: `theorem C13_two_multiset : Reachable F c0 c → c.allDone → delivered outputs of the
+  caller ~ (all input values).flatMap F` (no failure, no early stop) and `… → the caller's StopIteration carries every
+  input generator's return value` (once for a generator `iterator_fn` per task, P times for a pass-through);
+* termination: `theorem C13_two_terminates : ∃ bound, every execution from c0 has at most bound steps` (a variant over
+  both queues' `Phi` + per-task cost).
+  Both are covered by exhaustive exploration of small configurations + schedule replay on the real code + the oracle.
 -/
 namespace MlModel.C13
 open MlModel.Piter2
@@ -181,50 +182,50 @@ example : ¬ PoolOK 2 1 { piterInit 1 (some 2) none false [⟨[.val 1, .val 2], 
 
 open MlModel.Queue (J1 J2 K1 K2) in
 /-- **no lost wake-up in either queue of the two-level composition** (every schedule, every size, every pool, every
-early-stop position, failing inputs and failing `iterator_fn` included; generator `iterator_fn`): in every reachable
+early-stop position, failing inputs and failing `iterator_fn` included; generator or pass-through `iterator_fn`): in
+every reachable
 configuration the no-lost-wake-up invariant J1 ∧ J2 ∧ K1 ∧ K2 of `Lemmas/QueueLiveDefs.lean` holds for the INPUT queue
 seen through `q1cfg` (producers = first-level tasks, consumer = the second-level task inside `DequeueIterator(Q1).__next__`
 behind `lock1`, stoppers = the upstream stops) AND for the OUTPUT queue seen through `q2cfg` (producers = second-level
 tasks, consumer / stopper = the caller) — transferred from the queue LTS through the two views, not re-proved. -/
 theorem C13_two_no_lost_wakeup {cap1 cap2 bm1 bm2 mw : Nat} {ns : Option Nat} {inputs : List InSpec} {gens : List Nat}
-    {c : Piter2.Cfg} (h : Reachable F (Piter2.init cap1 cap2 bm1 bm2 mw ns false inputs gens) c) :
+    {fwd : Bool} {c : Piter2.Cfg} (h : Reachable F (Piter2.init cap1 cap2 bm1 bm2 mw ns fwd inputs gens) c) :
     (J1 (q1cfg c) ∧ J2 (q1cfg c) ∧ K1 (q1cfg c) ∧ K2 (q1cfg c)) ∧
     (J1 (q2cfg c) ∧ J2 (q2cfg c) ∧ K1 (q2cfg c) ∧ K2 (q2cfg c)) :=
-  let g := good_reachable (good_init cap1 cap2 bm1 bm2 mw ns inputs gens) h
+  let g := good_reachable (good_init cap1 cap2 bm1 bm2 mw ns fwd inputs gens) h
   ⟨⟨g.live1.j1, g.live1.j2, g.live1.k1, g.live1.k2⟩, ⟨g.live2.j1, g.live2.j2, g.live2.k1, g.live2.k2⟩⟩
 
 /-- **`lock1` is held exactly by the second-level task inside `next(DequeueIterator(Q1))`**, and every thread is in the
 phase its parts say (`Piter2.TI`): the structural invariant of the two-queue LTS. -/
 theorem C13_two_input_lock {cap1 cap2 bm1 bm2 mw : Nat} {ns : Option Nat} {inputs : List InSpec} {gens : List Nat}
-    {c : Piter2.Cfg} (h : Reachable F (Piter2.init cap1 cap2 bm1 bm2 mw ns false inputs gens) c)
+    {fwd : Bool} {c : Piter2.Cfg} (h : Reachable F (Piter2.init cap1 cap2 bm1 bm2 mw ns fwd inputs gens) c)
     {tid : Tid} {t : Th} (ht : c.ths[tid]? = some t) :
     (c.ilock = some tid ↔ (t.role = .l2 ∧ (t.x = .deq ∨ t.x = .lockRel))) ∧ TI t :=
-  let g := good_reachable (good_init cap1 cap2 bm1 bm2 mw ns inputs gens) h
+  let g := good_reachable (good_init cap1 cap2 bm1 bm2 mw ns fwd inputs gens) h
   ⟨g.inv.ilock tid t ht, g.inv.ti t (List.mem_of_getElem? ht)⟩
 
-/-- **a second-level task ends only after enqueueing on the input queue is done** (every schedule; generator
-`iterator_fn`): when a task `Q2.enqueue_from_iterator(iterator_fn(…))` has run to its end — cleanly, by a failure, or
+/-- **a second-level task ends only after enqueueing on the input queue is done** (every schedule): when a task `Q2.enqueue_from_iterator(iterator_fn(…))` has run to its end — cleanly, by a failure, or
 because the output queue was stopped — the INPUT queue's `enqueue_done` holds: it was exhausted (the task saw its
 `StopIteration`), or it was stopped by `_maybe_stop_upstream` (fix 091db8d).  This is what releases first-level tasks
 parked in `Q1.put`. -/
-theorem C13_two_upstream_done {cap1 cap2 bm1 bm2 mw : Nat} {ns : Option Nat} {ff : Bool} {inputs : List InSpec}
-    {gens : List Nat} {c : Piter2.Cfg} (h : Reachable F (initF cap1 cap2 bm1 bm2 mw ns false ff inputs gens) c)
+theorem C13_two_upstream_done {cap1 cap2 bm1 bm2 mw : Nat} {ns : Option Nat} {fwd ff : Bool} {inputs : List InSpec}
+    {gens : List Nat} {c : Piter2.Cfg} (h : Reachable F (initF cap1 cap2 bm1 bm2 mw ns fwd ff inputs gens) c)
     {t : Th} (ht : t ∈ c.ths) (hr : t.role = .l2) (hd : t.done = true) : c.s1.enqueueDone = true := by
-  have g := good_reachable (good_initF cap1 cap2 bm1 bm2 mw ns ff inputs gens) h
+  have g := good_reachable (good_initF cap1 cap2 bm1 bm2 mw ns fwd ff inputs gens) h
   have hd' : t.b.pc = .done ∧ t.x = .idle := by simpa [Th.done, hr] using hd
   exact g.inv.d1 t ht ⟨hr, .inr (.inr ⟨hd'.2, hd'.1⟩)⟩
 
 open MlModel.Queue (consWakePc prodWakePc) in
-/-- **stuck ⇒ every thread parked, unstarted or finished** (ANY pool, every schedule; generator `iterator_fn`): in a
+/-- **stuck ⇒ every thread parked, unstarted or finished** (ANY pool, every schedule): in a
 reachable configuration without enabled step the six queue locks are free and
 * the caller is parked in `Q2.get_batch`, or waits in `shutdown()` for unfinished tasks, or has finished;
 * a first-level task is held back by the pool, or parked in `Q1.put`, or finished;
 * a second-level task is held back by the pool, or finished, or parked in `Q2.put`, or waits for `lock1` (held by
   another task), or is parked in `Q1.get_batch` holding `lock1`.
 Without `PoolOK` this is all that can be said (`Witness/C13.lean`: F-C13-pool-small). -/
-theorem C13_two_stuck_all_parked {cap1 cap2 bm1 bm2 mw : Nat} {ns : Option Nat} {ff : Bool} {inputs : List InSpec}
+theorem C13_two_stuck_all_parked {cap1 cap2 bm1 bm2 mw : Nat} {ns : Option Nat} {fwd ff : Bool} {inputs : List InSpec}
     {gens : List Nat} {c : Piter2.Cfg} (hin : inputs ≠ []) (hgen : gens ≠ [])
-    (h : Reachable F (initF cap1 cap2 bm1 bm2 mw ns false ff inputs gens) c) (hq : c.quiescent F) :
+    (h : Reachable F (initF cap1 cap2 bm1 bm2 mw ns fwd ff inputs gens) c) (hq : c.quiescent F) :
     (∀ l, c.s1.owner l = none) ∧ (∀ l, c.s2.owner l = none) ∧
     ∀ (tid : Tid) (t : Th), c.ths[tid]? = some t →
       (t.role = .cons → (t.cpc = .iter ∧ consWakePc t.b.pc = true) ∨ (t.cpc = .shutdown ∧ c.tasksDone = false) ∨
@@ -233,7 +234,7 @@ theorem C13_two_stuck_all_parked {cap1 cap2 bm1 bm2 mw : Nat} {ns : Option Nat} 
       (t.role = .l2 → (t.b.pc = .start ∧ c.gate tid = false) ∨ (t.b.pc = .done ∧ t.x = .idle) ∨
         prodWakePc t.b.pc = true ∨ (t.b.pc = .eNext ∧ t.x = .lockAcq ∧ c.ilock ≠ none) ∨
         (t.b.pc = .eNext ∧ t.x = .deq ∧ consWakePc t.a.pc = true)) := by
-  have hg := good_reachable (good_initF cap1 cap2 bm1 bm2 mw ns ff inputs gens) h
+  have hg := good_reachable (good_initF cap1 cap2 bm1 bm2 mw ns fwd ff inputs gens) h
   have hf := reachable_frame h
   have hroles : c.ths.map (·.role) =
       Role.cons :: (List.replicate inputs.length Role.l1 ++ List.replicate gens.length Role.l2) := by
@@ -247,28 +248,27 @@ theorem C13_two_stuck_all_parked {cap1 cap2 bm1 bm2 mw : Nat} {ns : Option Nat} 
   subst h0
   exact stuck_cons hg hq ds1 ds2 ht
 
-/-- **No deadlock in the two-level composition under `PoolOK`** (generator `iterator_fn`; the `_partial` is the
-restriction `fwd = false`, see the file header): for every number of inputs ≥ 1 and of `iterator_fn` tasks ≥ 1, every
-capacity of both queues (0 = unbounded), every batch size, every `num_steps` (early stop at any position), failing inputs
+/-- **No deadlock in the two-level composition under `PoolOK`**: for a generator or a pass-through `iterator_fn`,
+every number of inputs ≥ 1 and of `iterator_fn` tasks ≥ 1, every capacity of both queues (0 = unbounded), every batch size, every `num_steps` (early stop at any position), failing inputs
 and a failing `iterator_fn`, a FIFO or an any-order pool, and EVERY schedule: if the pool is unbounded or has more
 workers than inputs and (unless FIFO) more workers than `iterator_fn` tasks, then a reachable configuration in which no
 thread has an enabled step is FINAL — the caller has passed `shutdown()` and every task of both levels has run to its
 end.  `Witness/C13.lean` shows that the pool condition cannot be dropped. -/
-theorem C13_two_no_deadlock_partial {cap1 cap2 bm1 bm2 mw : Nat} {ns : Option Nat} {ff : Bool} {inputs : List InSpec}
+theorem C13_two_no_deadlock {cap1 cap2 bm1 bm2 mw : Nat} {ns : Option Nat} {fwd ff : Bool} {inputs : List InSpec}
     {gens : List Nat} {c : Piter2.Cfg} (hin : inputs ≠ []) (hgen : gens ≠ [])
-    (hpool : PoolOK inputs.length gens.length (initF cap1 cap2 bm1 bm2 mw ns false ff inputs gens))
-    (h : Reachable F (initF cap1 cap2 bm1 bm2 mw ns false ff inputs gens) c) (hq : c.quiescent F) :
+    (hpool : PoolOK inputs.length gens.length (initF cap1 cap2 bm1 bm2 mw ns fwd ff inputs gens))
+    (h : Reachable F (initF cap1 cap2 bm1 bm2 mw ns fwd ff inputs gens) c) (hq : c.quiescent F) :
     c.allDone = true :=
   Piter2.no_deadlock hin hgen hpool h hq
 
 /-- under `PoolOK` **no task is left unstarted in a quiescent configuration**: the pool is never what a two-level
 `piter` waits for in the end -/
-theorem C13_two_stuck_no_unstarted {cap1 cap2 bm1 bm2 mw : Nat} {ns : Option Nat} {ff : Bool} {inputs : List InSpec}
+theorem C13_two_stuck_no_unstarted {cap1 cap2 bm1 bm2 mw : Nat} {ns : Option Nat} {fwd ff : Bool} {inputs : List InSpec}
     {gens : List Nat} {c : Piter2.Cfg} (hin : inputs ≠ []) (hgen : gens ≠ [])
-    (hpool : PoolOK inputs.length gens.length (initF cap1 cap2 bm1 bm2 mw ns false ff inputs gens))
-    (h : Reachable F (initF cap1 cap2 bm1 bm2 mw ns false ff inputs gens) c) (hq : c.quiescent F)
+    (hpool : PoolOK inputs.length gens.length (initF cap1 cap2 bm1 bm2 mw ns fwd ff inputs gens))
+    (h : Reachable F (initF cap1 cap2 bm1 bm2 mw ns fwd ff inputs gens) c) (hq : c.quiescent F)
     {t : Th} (ht : t ∈ c.ths) : t.started = true := by
-  have hall := C13_two_no_deadlock_partial hin hgen hpool h hq
+  have hall := C13_two_no_deadlock hin hgen hpool h hq
   unfold Piter2.Cfg.allDone at hall
   rw [List.all_eq_true] at hall
   have hd := hall t ht
@@ -281,16 +281,16 @@ theorem C13_two_stuck_no_unstarted {cap1 cap2 bm1 bm2 mw : Nat} {ns : Option Nat
     have : t.b.pc = .done ∧ t.x = .idle := by simpa [Th.done, hr] using hd
     simp [Th.started, hr, this.1]
 
-/-- the pool `piter` creates itself satisfies the hypothesis of `C13_two_no_deadlock_partial` -/
-theorem C13_two_own_pool_ok (bufferSize : Nat) (numSteps : Option Nat) (inputs : List InSpec) (gens : List Nat)
-    (hn : inputs ≠ []) :
+/-- the pool `piter` creates itself satisfies the hypothesis of `C13_two_no_deadlock` -/
+theorem C13_two_own_pool_ok (bufferSize : Nat) (numSteps : Option Nat) (fwd : Bool) (inputs : List InSpec)
+    (gens : List Nat) (hn : inputs ≠ []) :
     PoolOK inputs.length gens.length
       (initF (if bufferSize == 0 then gens.length else bufferSize) bufferSize (if gens.length > 1 then 1 else maxBatch)
-        maxBatch (inputs.length + max gens.length 1) numSteps false false inputs gens) := by
+        maxBatch (inputs.length + max gens.length 1) numSteps fwd false inputs gens) := by
   have hl : 0 < inputs.length := List.length_pos_iff.mpr hn
   refine .inr ⟨?_, .inr ?_⟩ <;> simp only [initF, Piter2.init] <;> omega
 
-/-- test (by `decide`), non-vacuity of `C13_two_no_deadlock_partial` and `C13_two_stuck_all_parked`: two inputs, one
+/-- test (by `decide`), non-vacuity of `C13_two_no_deadlock` and `C13_two_stuck_all_parked`: two inputs, one
 `iterator_fn` task, FIFO pool with 3 workers, both queues of capacity 1 — a complete run (100 steps) ends in a
 reachable configuration without enabled step, and it is final -/
 example : ∃ c, Reachable (Piter.evalFn .ident none)
@@ -306,5 +306,23 @@ example : ∃ c, Reachable (Piter.evalFn .ident none)
   exact ⟨c, reachable_run _ _ _ hr, quiescent_of_enabled_nil hc.1, hc.2⟩
 
 example : PoolOK 2 1 (initF 1 1 1 2 3 none false true [⟨[.val 1], 900, []⟩, ⟨[], 901, []⟩] [800]) := by decide
+
+/-- test (by `decide`): the case that needs the normalising view.  Pass-through `iterator_fn`, `num_steps = 0`: the
+second-level task parks in `Q1.get_batch`, the caller stops both queues (upstream stop), the task wakes up with
+`StopIteration()` — NO arguments — and forwards them: it runs `_stop_enqueue()` with empty arguments (`rets = []`) and
+ends; the run (52 steps) ends in a quiescent, final configuration. -/
+example : ∃ c, Reachable (Piter.evalFn .ident none)
+      (initF 1 1 1 2 0 (some 0) true false [⟨[.val 1, .val 2], 900, []⟩] [800]) c ∧
+      c.quiescent (Piter.evalFn .ident none) ∧ c.allDone = true ∧
+      (c.ths[2]?.map fun t => (t.b.rets, t.a.outcome)) = some ([], some (.stop [])) := by
+  have h : ((run (Piter.evalFn .ident none)
+      (initF 1 1 1 2 0 (some 0) true false [⟨[.val 1, .val 2], 900, []⟩] [800])
+      (List.replicate 3 0 ++ List.replicate 10 2 ++ List.replicate 16 0 ++ List.replicate 19 2 ++ List.replicate 3 1 ++
+        [0])).map fun c => (enabled (Piter.evalFn .ident none) c == [], c.allDone,
+          c.ths[2]?.map fun t => (t.b.rets, t.a.outcome))) =
+      some (true, true, some ([], some (.stop []))) := by decide +kernel
+  obtain ⟨c, hr, hc⟩ := Option.map_eq_some_iff.mp h
+  simp only [Prod.mk.injEq, beq_iff_eq] at hc
+  exact ⟨c, reachable_run _ _ _ hr, quiescent_of_enabled_nil hc.1, hc.2.1, hc.2.2⟩
 
 end MlModel.C13
